@@ -42,7 +42,10 @@ AttrKey(o, nm) == LET k == Cs1(o.apfx) \o (IF o.snake THEN Snake(nm.l) ELSE nm.l
 \* cast with the default flags (float, bool) over the texts the configs use; C14 has the full chain
 BigNum == <<"1", "6", "7", "7", "7", "2", "1", "7">>     \* 2^24 + 1: exact as float64, not as float32
 BigNumTok == <<"1", ".", "6", "7", "7", "7", "2", "1", "7", "e", "+", "0", "7">>     \* its canonical token (Go's %v of the float64)
-CastDefault(s) == CASE s = <<"7">> -> VF(s) [] s = <<"1">> -> VF(s) [] s = BigNum -> VF(BigNumTok) [] s = BigNumTok -> VF(BigNumTok) [] s = <<"t", "r", "u", "e">> -> VB(s) [] OTHER -> VS(s)
+LongNum == <<"0", "0", "0", "0", "0", "0", "0", "0", "0", "0", "0", "0", "0", "0", "0", "0", "0", "0", "0", "0", "0", "0", "0", "4", "2">>   \* 25 characters: longer than any numeral strconv PRINTS, still a numeral it parses
+Big19 == <<"1", "0", "0", "0", "0", "0", "0", "0", "0", "0", "0", "0", "0", "0", "0", "0", "0", "0", "0", "0">>     \* 1e19: integral, beyond int64
+Big19Tok == <<"1", "e", "+", "1", "9">>
+CastDefault(s) == CASE s = LongNum -> VF(<<"4", "2">>) [] s = <<"4", "2">> -> VF(s) [] s = Big19 -> VF(Big19Tok) [] s = Big19Tok -> VF(Big19Tok) [] s = <<"7">> -> VF(s) [] s = <<"1">> -> VF(s) [] s = BigNum -> VF(BigNumTok) [] s = BigNumTok -> VF(BigNumTok) [] s = <<"t", "r", "u", "e">> -> VB(s) [] OTHER -> VS(s)
 ScalarOf(o, cs) == LET s == IF o.escdec THEN XmlEscape(cs) ELSE cs IN
                    IF o.cast THEN CastDefault(s) ELSE VS(s)
 
